@@ -178,6 +178,12 @@ def check(ctx: Ctx) -> None:
         for l in leaves:
             params = l.run.__dict__["params"]
             sinks = _sinks(l)
+            if l.kind == "raise" and own:
+                labels = [str(lbl) for _, lbl in l.atoms][:3]
+                ctx.fail("C14.accept", where, f"`{op}` raises {getattr(l.value, 'cls_name', '?')} on path {labels}",
+                         f"`{op}` itself raises {getattr(l.value, 'cls_name', '?')} when {labels}: the only rejection the property allows is the normaliser's "
+                         f"TypeError for an invalid child, and an argument that the constructor, + and extend accept (e.g. an empty list) must be accepted here too",
+                         witness="tl = TagList('a'); tl += []" if meth == "__iadd__" else None)
             san_idx = [i for i, e in enumerate(l.effects) if e.kind == "call" and getattr(e.target, "qual", "") == SAN]
             for i, e, val in sinks:
                 t = _taint(val, params)
@@ -229,6 +235,16 @@ def check(ctx: Ctx) -> None:
     ctx.count("operations analysed", n_ops)
 
     # ---- .3 dispatch table of the normaliser -------------------------------------------------------------------
+    normaliser_tables(ctx)
+    # ---- .6 Tag delegates ------------------------------------------------------------------------------------------------------
+    for meth in ("insert", "extend", "append"):
+        _delegates(ctx, I, meth)
+
+
+def normaliser_tables(ctx: Ctx) -> None:
+    """Dispatch tables of the child normaliser, of flatten, and the acceptance predicates (shared with C17: what a
+    `with tag:` block captures is type-checked here)."""
+    prog = ctx.prog
     where = f"{CORE}:{SAN}"
     t = childnorm.tagchilds_table(prog)
     node_tbl = childnorm.predicate_table(prog, "is_tag_node")
@@ -288,9 +304,6 @@ def check(ctx: Ctx) -> None:
         ctx.check(node_tbl.get(k) is True, "C14.accept", f"is_tag_node is True for stored kind {k}", f"{CORE}:is_tag_node",
                   f"is_tag_node({k}) = {node_tbl.get(k)}", f"a stored element of kind {k} does not satisfy is_tag_node")
     ctx.check(node_tbl.get("STR") is True, "C14.accept", "converted numbers (str) satisfy is_tag_node", f"{CORE}:is_tag_node", "STR", "str is not a tag node")
-    # ---- .6 Tag delegates ------------------------------------------------------------------------------------------------------
-    for meth in ("insert", "extend", "append"):
-        _delegates(ctx, I, meth)
 
 
 def _delegates(ctx: Ctx, I: Interp, meth: str) -> None:
